@@ -363,6 +363,21 @@ static std::string step(const std::vector<std::string> &t) {
     before[k][i] = vlive[k][i] ? rawPtr(k, i) : NULL;
     devBefore[k][i] = NULL;
   }
+  // objects pinned by dontUseRefs(): their device and (for pool reservations) their pool before the operation
+  struct PinInfo { Ref r; const void *dev; const void *buf; };
+  std::vector<PinInfo> pinsBefore;
+  for (const Ref &r : pinned) {
+    if (!ov::isLive(r.kind, r.p)) continue;
+    PinInfo pi{r, (const void*) deviceOf(r), NULL};
+    if (r.kind == ov::kMemory) {
+      // only a pool destroys its slices; a plain buffer goes with its last slice, not before it
+      occa::modeBuffer_t *b = ((occa::modeMemory_t*) r.p)->modeBuffer;
+      occa::modeMemoryPool_t *pool = b ? dynamic_cast<occa::modeMemoryPool_t*>(b) : NULL;
+      pi.buf = (const void*) pool;
+    }
+    pinsBefore.push_back(pi);
+  }
+  const void *freeTarget = (op == "free" && v1 && vlive[k1][i1]) ? rawPtr(k1, i1) : NULL;
   try {
     if (op == "end" && t.size() == 1) {
       releaseAll();   // what dontUseRefs pinned is released explicitly; everything else must already be gone
@@ -467,6 +482,17 @@ static std::string step(const std::vector<std::string> &t) {
     }
   } catch (occa::exception &e) {
     res = "err";
+  }
+  // oracle: an object pinned by dontUseRefs() is only destroyed by free() on it or together with its
+  // device / pool, never because a handle went away
+  if (!atEnd) {
+    for (const PinInfo &pi : pinsBefore) {
+      if (ov::isLive(pi.r.kind, pi.r.p)) continue;
+      if (pi.r.p == freeTarget) continue;
+      if (pi.dev && !ov::isLive(ov::kDevice, pi.dev)) continue;
+      if (pi.buf && !ov::isLive(ov::kMemoryPool, pi.buf)) continue;
+      hp::oracle("an object pinned by dontUseRefs() was destroyed although nobody freed it");
+    }
   }
   checkState(atEnd);
   return res + observe();
